@@ -380,7 +380,7 @@ func runBig(c BigCase) (v *Violation) {
 
 func TestC10Big(t *testing.T) {
 	rapid.Check(t, func(rt *rapid.T) {
-		c := BigCase{Prop: "C10", Kind: "big", Leaves: rapid.IntRange(5001, 5400).Draw(rt, "leaves"),
+		c := BigCase{Prop: "C10", Kind: "big", Leaves: rapid.IntRange(5002, 5400).Draw(rt, "leaves"),
 			Mode: rapid.SampledFrom([]string{"commit", "commit", "close", "fail_late"}).Draw(rt, "mode"), Compress: rapid.Bool().Draw(rt, "compress"), Skip: rapid.Bool().Draw(rt, "skip")}
 		if Open("F18") && c.Mode != "commit" {
 			// steer around F18 (aborted multi-batch import leaves node entries that fake a version)
